@@ -530,6 +530,9 @@ class NestSeriesAccessor(Mapping):
         if isinstance(value, pd.Series) and not self.get_flat_index().equals(value.index):
             raise ValueError("Cannot set field with a Series of different index")
 
+        if isinstance(getattr(value, "dtype", None), np.dtype):
+            # Arrow wraps numpy memory without copying it, see set_flat_field
+            value = value.copy()
         pa_array = pa.array(value, from_pandas=True)
 
         # Input is a flat array of values
